@@ -449,11 +449,17 @@ def work(P, item):
         obl.append((nm + ": z-scores have the input's shape", z3.BoolVal(np.asarray(zs.data, dtype=object).shape != shape), dict(kind="zscore", loc=lm, scale=sm, shape=list(shape), axis=axis), ()))
         return obl
 
+    wit = [1]
+
     def on_path(ctx, obl):
         Ctx.cur = ctx
         P.reached += 1
+        before = len(P.cands)
         for nm, c, params, ax in obl:
             check(P, ctx, nm, c, params, ax)
+        if wit[0] > 0 and obl and len(P.cands) == before:
+            wit[0] -= 1
+            P.witness("c15", dict(obl[0][2]), ("witness-" + obl[0][0]).replace(" ", "_").replace("[", "_").replace("]", "_").replace(",", "_").replace("=", "").replace("(", "").replace(")", "").replace("*", "x").replace("|", "").replace("/", "-").replace(":", "")[:100], obl[0][0])
         Ctx.cur = None
     try:
         explore(run, bound=4, on_path=on_path, stats=P.stats, deadline_s=300)
